@@ -25,6 +25,7 @@ import (
 	"fmt"
 	"strings"
 	"sync"
+	"sync/atomic"
 	"time"
 
 	"github.com/btcsuite/btcutil/base58"
@@ -43,6 +44,7 @@ import (
 	"github.com/hyperledger/aries-framework-go/pkg/framework/context"
 	kmsapi "github.com/hyperledger/aries-framework-go/spi/kms"
 	spilog "github.com/hyperledger/aries-framework-go/spi/log"
+	spi "github.com/hyperledger/aries-framework-go/spi/storage"
 )
 
 type c10Bus struct {
@@ -83,7 +85,42 @@ type c10Recv struct {
 	content   string
 }
 
+// storage whose writes can be made slow (op `slow A`): the services of the agent then persist a state AFTER the peer's
+// next message may already have arrived - unless they persist before they send.
+type c10SlowProv struct {
+	spi.Provider
+	slow *int32
+}
+
+func (p *c10SlowProv) OpenStore(name string) (spi.Store, error) {
+	st, err := p.Provider.OpenStore(name)
+	if err != nil {
+		return nil, err
+	}
+	return &c10SlowStore{st, p.slow}, nil
+}
+
+type c10SlowStore struct {
+	spi.Store
+	slow *int32
+}
+
+func (s *c10SlowStore) Put(k string, v []byte, tags ...spi.Tag) error {
+	if atomic.LoadInt32(s.slow) != 0 {
+		time.Sleep(40 * time.Millisecond)
+	}
+	return s.Store.Put(k, v, tags...)
+}
+
+func (s *c10SlowStore) Batch(ops []spi.Operation) error {
+	if atomic.LoadInt32(s.slow) != 0 {
+		time.Sleep(40 * time.Millisecond)
+	}
+	return s.Store.Batch(ops)
+}
+
 type c10Agent struct {
+	slow   int32
 	name   string
 	fw     *aries.Aries
 	ctx    *context.Provider
@@ -124,7 +161,8 @@ func c10NewAgent(bus *c10Bus, name string, cfg []string) (*c10Agent, error) {
 	a := &c10Agent{name: name, conns: map[string]string{}}
 	a.in = &c10In{ep: "bus://" + name}
 	reg := msghandler.NewRegistrar()
-	opts := []aries.Option{aries.WithStoreProvider(mem.NewProvider()), aries.WithProtocolStateStoreProvider(mem.NewProvider()),
+	opts := []aries.Option{aries.WithStoreProvider(&c10SlowProv{mem.NewProvider(), &a.slow}),
+		aries.WithProtocolStateStoreProvider(&c10SlowProv{mem.NewProvider(), &a.slow}),
 		aries.WithInboundTransport(a.in), aries.WithOutboundTransports(&c10Out{bus}), aries.WithMessageServiceProvider(reg)}
 	switch cfg[0] {
 	case "p256":
@@ -382,7 +420,30 @@ func c10Run(input string) string {
 			if C == nil || A == nil || B == nil {
 				return "bad-op " + op
 			}
-			outs = append(outs, c10AnonFrom(w, C, A, B, seq))
+			outs = append(outs, c10AnonFrom(w, C, A, B, seq, false))
+		case "authfrom":
+			C, A, B := get(1), get(2), get(3)
+			if C == nil || A == nil || B == nil {
+				return "bad-op " + op
+			}
+			outs = append(outs, c10AnonFrom(w, C, A, B, seq, true))
+		case "forge2":
+			C, A, B := get(1), get(2), get(3)
+			if C == nil || A == nil || B == nil {
+				return "bad-op " + op
+			}
+			outs = append(outs, c10Forge2(w, C, A, B))
+		case "slow", "fast":
+			A := get(1)
+			if A == nil {
+				return "bad-op " + op
+			}
+			v := int32(0)
+			if f[0] == "slow" {
+				v = 1
+			}
+			atomic.StoreInt32(&A.slow, v)
+			outs = append(outs, "ok")
 		default:
 			return "bad-op " + op
 		}
@@ -474,10 +535,28 @@ func c10Forge(w *c10World, C, A, B *c10Agent) string {
 	return "sent"
 }
 
-func c10AnonFrom(w *c10World, C, A, B *c10Agent, seq int) string {
+// auth = true: the message is AUTHcrypted with the key C uses on its own connection with A (A knows that key as C's);
+// its plaintext still names B.
+func c10AnonFrom(w *c10World, C, A, B *c10Agent, seq int, auth bool) string {
 	ca, err := A.client.GetConnection(A.conns[B.name])
 	if err != nil {
 		return "noconn"
+	}
+	var fromKey []byte
+	if auth {
+		cc, err := C.client.GetConnection(C.conns[A.name])
+		if err != nil {
+			return "noconn"
+		}
+		mine, err := C.ctx.VDRegistry().Resolve(cc.MyDID)
+		if err != nil {
+			return "nokeys"
+		}
+		md, err := service.CreateDestination(mine.DIDDocument)
+		if err != nil || len(md.RecipientKeys) == 0 {
+			return "nodest"
+		}
+		fromKey = []byte(md.RecipientKeys[0])
 	}
 	content := fmt.Sprintf("spoof-%d", seq)
 	msg := map[string]interface{}{"@id": fmt.Sprintf("sp-%d", seq), "@type": "https://didcomm.org/basicmessage/1.0/message",
@@ -497,7 +576,8 @@ func c10AnonFrom(w *c10World, C, A, B *c10Agent, seq int) string {
 	A.mu.Unlock()
 	sent := false
 	for _, mtp := range []string{transport.MediaTypeRFC0019EncryptedEnvelope, transport.LegacyDIDCommV1Profile, transport.MediaTypeDIDCommV2Profile} {
-		packed, err := C.ctx.Packager().PackMessage(&transport.Envelope{MediaTypeProfile: mtp, Message: mb, ToKeys: dest.RecipientKeys})
+		packed, err := C.ctx.Packager().PackMessage(&transport.Envelope{MediaTypeProfile: mtp, Message: mb, ToKeys: dest.RecipientKeys,
+			FromKey: fromKey})
 		if err != nil {
 			continue
 		}
@@ -507,14 +587,85 @@ func c10AnonFrom(w *c10World, C, A, B *c10Agent, seq int) string {
 		}
 	}
 	if !sent {
+		if auth {
+			return "not-as-" + B.name
+		}
 		return "refused"
 	}
 	r := c10Delivered(A, before, content, B, w)
+	if auth && r != "delivered as="+B.name {
+		// the contract is about ONE thing: the message is not attributed to B. To whom else (C, nobody, dropped) is the
+		// framework's business and differs between the profiles.
+		return "not-as-" + B.name
+	}
 	return r
 }
 
+// C sends A a didexchange request that attaches B's OWN document as A knows it (same id, same verification methods)
+// with the service block replaced: C's endpoint, C's recipient key.
+func c10Forge2(w *c10World, C, A, B *c10Agent) string {
+	ca, err := A.client.GetConnection(A.conns[B.name])
+	if err != nil {
+		return "noconn"
+	}
+	res, err := A.ctx.VDRegistry().Resolve(ca.TheirDID)
+	if err != nil {
+		return "unresolvable"
+	}
+	raw, err := res.DIDDocument.JSONBytes()
+	if err != nil {
+		return "nodoc"
+	}
+	var doc map[string]interface{}
+	if json.Unmarshal(raw, &doc) != nil {
+		return "nodoc"
+	}
+	_, pub, err := C.ctx.KMS().CreateAndExportPubKeyBytes(kmsapi.ED25519Type)
+	if err != nil {
+		return "nokey"
+	}
+	fromKey, _ := fingerprint.CreateDIDKey(pub)
+	svcs, _ := doc["service"].([]interface{})
+	if len(svcs) == 0 {
+		return "nosvc"
+	}
+	for _, x := range svcs {
+		if m, ok := x.(map[string]interface{}); ok {
+			m["serviceEndpoint"] = C.in.ep
+			m["recipientKeys"] = []interface{}{fromKey}
+			delete(m, "routingKeys")
+		}
+	}
+	forged, _ := json.Marshal(doc)
+	inv, err := A.client.CreateInvitation("for-c2")
+	if err != nil {
+		return "noinv"
+	}
+	req := map[string]interface{}{
+		"@id": "forged-2", "@type": didexsvc.RequestMsgType, "label": "c", "did": ca.TheirDID,
+		"~thread":        map[string]interface{}{"thid": "forged-2", "pthid": inv.ID},
+		"did_doc~attach": map[string]interface{}{"mime-type": "application/json", "data": map[string]interface{}{"base64": b64std(forged)}},
+	}
+	rb, _ := json.Marshal(req)
+	env := &transport.Envelope{MediaTypeProfile: C.ctx.MediaTypeProfiles()[0], Message: rb, ToKeys: append([]string{}, inv.RecipientKeys...),
+		FromKey: []byte(fromKey)}
+	packed, err := C.ctx.Packager().PackMessage(env)
+	if err != nil {
+		env.FromKey = nil
+		packed, err = C.ctx.Packager().PackMessage(env)
+	}
+	if err != nil {
+		return "nopack " + strings.SplitN(err.Error(), ":", 2)[0]
+	}
+	if err := A.deliver(packed); err != nil {
+		return "refused"
+	}
+	time.Sleep(150 * time.Millisecond)
+	return "sent"
+}
+
 func c10Gen(r *Rng, tier string) []string {
-	n := 40
+	n := 70
 	if tier == "thorough" {
 		n = 1500
 	}
@@ -527,15 +678,22 @@ func c10Gen(r *Rng, tier string) []string {
 		}
 		cfg := fmt.Sprintf("%s,%s,%s", kt, r.Pick([]string{"x25519", "p256"}), prof)
 		var ops []string
-		switch r.N(4) {
+		switch r.N(7) {
 		case 0:
 			ops = []string{"ex a b", "msg a b", "msg b a", "ex a c", "msg c a", "msg a c", "msg b a"}
 		case 1:
 			ops = []string{"ex2 a b a c", "msg b a", "msg c a", "msg a b", "msg a c"}
 		case 2:
 			ops = []string{"ex a b", "resolve a b", "forge c a b", "resolve a b", "msg a b", "msg b a"}
-		default:
+		case 3:
 			ops = []string{"ex a b", "ex c a", "anonfrom c a b", "msg b a"}
+		case 4:
+			ops = []string{"ex a b", "resolve a b", "forge2 c a b", "resolve a b", "msg a b", "msg b a"}
+		case 5:
+			ops = []string{"ex a b", "ex c a", "authfrom c a b", "msg b a", "msg c a"}
+		default:
+			x, y := r.Pick([]string{"a", "b"}), "c"
+			ops = []string{"slow " + x, "ex " + x + " " + y, "fast " + x, "msg " + x + " " + y, "slow " + y, "ex a b", "fast " + y, "msg b a"}
 		}
 		if r.Bool() {
 			ops = append(ops, r.Pick([]string{"ex b c", "ex2 b c c a", "resolve b a", "msg a b"}))
